@@ -19,7 +19,8 @@ their limits.  Not decided: equality decode(encode(m)) == m as a value fact, and
 uniqueness of encodings over arbitrary decodable bytes beyond the INJ rules.
 (INJ, second half) between a read and the value returned, decoded data passes only through
 plumbing, conversion traits, constructors and a reviewed list of dependency constructors:
-no unreviewed (possibly normalising) transformation."""
+no unreviewed (possibly normalising) transformation; conversions implemented in the workspace
+must themselves be plain constructors; decoders read with read_exact (no silent short reads)."""
 import json
 import re
 
